@@ -290,9 +290,6 @@ func genC20(t *rapid.T) C20Case {
 				Nth:   rapid.IntRange(1, 4).Draw(t, "fnth"), Count: rapid.IntRange(1, 4).Draw(t, "fcount"),
 				Kind: rapid.SampledFrom([]sim.FaultKind{sim.FaultReject, sim.FaultTimeout, sim.FaultConflict, sim.FaultCommitTimeout}).Draw(t, "fkind"),
 			}
-			if f.Kind == sim.FaultCommitTimeout && (f.Actor == "" || f.Actor == "jobqueue") && (f.Verb == "" || f.Verb == "updateStatus") {
-				f.Actor, f.Name = "job", "excluded" // known finding E2-start-commit-timeout, excluded by construction
-			}
 			fs = append(fs, f)
 		}
 		c.Faults = append(c.Faults, fs)
@@ -430,4 +427,35 @@ func keyRoundTrip(ns, name string, unix int64) pbt.Result {
 		res.Labels = append(res.Labels, "dotted-name")
 	}
 	return res
+}
+
+// ---------- recorded finding: a start write that commits but is reported as failed ----------
+
+func startCommitTimeoutTrace() E2Trace {
+	return E2Trace{Start: 1646370367000, Profile: "known",
+		JCs: []E2JC{{Name: "jc0", Policy: "Enqueue"}},
+		Ops: []E2Op{
+			{K: "fault", F: &sim.Fault{Actor: "jobqueue", Verb: "updateStatus", Nth: 1, Count: 1, Kind: sim.FaultCommitTimeout}},
+			{K: "createJob", A: "jc0", N: 0},
+			{K: "createJob", A: "jc0", N: 1},
+			{K: "settle"},
+		}}
+}
+
+// TestKnownC05_startCommitTimeout: with maxConcurrency 1, the first start write
+// commits but the client sees a timeout; the counter is rolled back, the later
+// update event is deliberately not counted, and the second Enqueue Job starts
+// next to the first.
+func TestKnownC05_startCommitTimeout(t *testing.T) {
+	pbt.Known(t, "C05", "E2-start-commit-timeout", func() *pbt.Violation {
+		return runE2(startCommitTimeoutTrace(), map[string]bool{"C05": true}).Violation
+	})
+}
+
+func TestKnownC20_startCommitTimeout(t *testing.T) {
+	pbt.Known(t, "C20", "E2-start-commit-timeout", func() *pbt.Violation {
+		tr := startCommitTimeoutTrace()
+		c := C20Case{Start: tr.Start, JCs: tr.JCs, Phases: [][]E2Op{tr.Ops[1:3]}, Faults: [][]sim.Fault{{*tr.Ops[0].F}}}
+		return runC20(c).Violation
+	})
 }
